@@ -37,26 +37,33 @@ func OutOfDomain(fd protoreflect.FileDescriptor) string {
 			return "import " + imps.Get(i).Path() + " is not registered"
 		}
 	}
-	if !flags.ProtoLegacy {
-		var has func(ms protoreflect.MessageDescriptors) bool
-		has = func(ms protoreflect.MessageDescriptors) bool {
-			for i := 0; i < ms.Len(); i++ {
-				m := ms.Get(i)
-				if x, ok := m.(interface{ IsMessageSet() bool }); ok && x.IsMessageSet() {
-					return true
-				}
-				if has(m.Messages()) {
-					return true
-				}
-			}
-			return false
-		}
-		if has(fd.Messages()) {
-			return "declares a MessageSet message (needs -tags protolegacy)"
-		}
+	if !flags.ProtoLegacy && DeclaresMessageSet(fd) {
+		return "declares a MessageSet message (needs -tags protolegacy)"
 	}
 	return ""
 }
+
+// DeclaresMessageSet reports whether some message of the file uses the MessageSet wire format.
+func DeclaresMessageSet(fd protoreflect.FileDescriptor) bool {
+	var has func(ms protoreflect.MessageDescriptors) bool
+	has = func(ms protoreflect.MessageDescriptors) bool {
+		for i := 0; i < ms.Len(); i++ {
+			m := ms.Get(i)
+			if x, ok := m.(interface{ IsMessageSet() bool }); ok && x.IsMessageSet() {
+				return true
+			}
+			if has(m.Messages()) {
+				return true
+			}
+		}
+		return false
+	}
+	return has(fd.Messages())
+}
+
+// LegacyLegOnly reports whether the running binary is the protolegacy leg of a check; that leg
+// only adds the files the default build cannot accept (MessageSet-declaring files).
+func LegacyLegOnly() bool { return flags.ProtoLegacy }
 
 // EmbeddedRaw returns the raw descriptor bytes that the generated package of fd embeds, when
 // some message type of the file still has the legacy `Descriptor() ([]byte, []int)` method
